@@ -64,6 +64,7 @@ def stepLine (s : DrvSt) (toks : List String) : DrvSt × String :=
       | "sdflag", some n => some (.flag n)
       | "sdstop", some n => some (.stop n)
       | "shutdown", some n => some (.shutdown n)
+      | "restart", some n => some (.restart n)
       | _, _ => none
     let tree := s.gs.tree
     match parsed, op, a.toNat? with
